@@ -17,6 +17,8 @@ pub enum Form {
     Str,
     Pos,
     Span,
+    /// the sub-slice `&s[a..b]` passed as a `&str` of its own (a different input object over the same memory)
+    Slice,
 }
 
 pub mod what {
@@ -34,6 +36,7 @@ pub mod what {
     pub const TREE: u32 = 2048; // Pair / PairTree traversal helpers (non-silent rules)
     pub const GETTERS: u32 = 4096; // generated getters
     pub const WCF: u32 = 8192; // try_check_with (full) with raw tracker
+    pub const TP: u32 = 16384; // TypedParser::try_parse / try_check convenience methods of the parser struct
 }
 
 #[derive(Clone, Debug)]
@@ -137,6 +140,8 @@ pub struct Obs {
     pub w0p: Option<WithCall>,
     pub w0c: Option<WithCall>,
     pub eqh: Option<EqH>,
+    /// (TypedParser::try_parse::<T>(s).is_ok(), TypedParser::try_check::<T>(s).is_ok(), tree equals try_parse's)
+    pub tp: Option<(bool, bool, bool)>,
     pub tree: Option<TreeObs>,
     pub getters: Vec<getters::GetterObs>,
 }
@@ -430,13 +435,35 @@ where
 }
 
 /// Observation through all three input forms.
-pub fn observe_all<'i, R, T, T0>(req: &Req<'i>, tid: fn(R) -> u16) -> Obs
+fn parser_struct_calls<'i, R, T, P>(req: &Req<'i>, obs: &mut Obs)
+where
+    R: RuleType,
+    T: ParsableTypedNode<'i, R> + Eq,
+    P: pest_typed::TypedParser<R>,
+{
+    if req.what & what::TP != 0 {
+        let a = P::try_parse::<T>(req.s);
+        let b = P::try_check::<T>(req.s);
+        let same = match (&a, T::try_parse(req.s)) {
+            (Ok(x), Ok(y)) => *x == y,
+            (Err(_), Err(_)) => true,
+            _ => false,
+        };
+        obs.tp = Some((a.is_ok(), b.is_ok(), same));
+    }
+}
+
+pub fn observe_all<'i, R, T, T0, P>(req: &Req<'i>, tid: fn(R) -> u16) -> Obs
 where
     R: RuleType,
     T: ParsableTypedNode<'i, R> + Pairs<'i, R> + Debug + Clone + Eq + Hash,
     T0: TypedNode<'i, R> + Pairs<'i, R>,
+    P: pest_typed::TypedParser<R>,
 {
     let mut obs = Obs::default();
+    if req.form == Form::Str {
+        parser_struct_calls::<R, T, P>(req, &mut obs);
+    }
     match req.form {
         Form::Str => calls::<R, T, T0, &'i str>(req.s, req, tid, &mut obs),
         Form::Pos => {
@@ -447,19 +474,22 @@ where
             let sp = Span::new(req.s, req.a, req.b).expect("boundary");
             calls::<R, T, T0, Span<'i>>(sp, req, tid, &mut obs)
         }
+        Form::Slice => calls::<R, T, T0, &'i str>(&req.s[req.a..req.b], req, tid, &mut obs),
     }
     obs
 }
 
 /// Observation through `&str` only (cheaper to compile).
-pub fn observe_str<'i, R, T, T0>(req: &Req<'i>, tid: fn(R) -> u16) -> Obs
+pub fn observe_str<'i, R, T, T0, P>(req: &Req<'i>, tid: fn(R) -> u16) -> Obs
 where
     R: RuleType,
     T: ParsableTypedNode<'i, R> + Pairs<'i, R> + Debug + Clone + Eq + Hash,
     T0: TypedNode<'i, R> + Pairs<'i, R>,
+    P: pest_typed::TypedParser<R>,
 {
     let mut obs = Obs::default();
     assert!(req.form == Form::Str, "shard compiled for &str inputs only");
+    parser_struct_calls::<R, T, P>(req, &mut obs);
     calls::<R, T, T0, &'i str>(req.s, req, tid, &mut obs);
     obs
 }
@@ -473,6 +503,7 @@ where
         Form::Str => T::try_parse_partial(s).ok().map(|x| x.1),
         Form::Pos => T::try_parse_partial(Position::new(s, f.1)?).ok().map(|x| x.1),
         Form::Span => T::try_parse_partial(Span::new(s, f.1, f.2)?).ok().map(|x| x.1),
+        Form::Slice => T::try_parse_partial(s.get(f.1..f.2)?).ok().map(|x| x.1),
     }
 }
 
